@@ -31,7 +31,20 @@ static void *do_alloc(const char *kind, size_t bytes, int zero) {
 }
 void *verif_malloc(size_t size) { return do_alloc("malloc", size, 0); }
 void *verif_calloc(size_t num, size_t size) { return do_alloc("calloc", num * size, 1); }
-void *verif_realloc(void *ptr, size_t size) { (void)ptr; (void)size; fprintf(stderr, "realloc unexpected\n"); abort(); }
+/* realloc through the seam: one allocation attempt; on success the old block is released and a new one handed out (two events),
+ * on refusal the old block stays live and NULL is returned (C semantics) */
+void *verif_realloc(void *ptr, size_t size) {
+    if (!g_logging) return realloc(ptr, size ? size : 1);
+    if (!ptr) return do_alloc("realloc", size, 0);
+    if (should_fail()) { fprintf(vt_out, "{\"e\":\"Alloc\",\"kind\":\"realloc\",\"id\":0,\"ok\":0,\"sz\":%zu}\n", size); return NULL; }
+    int id = blk_id(ptr, 0);
+    void *p = realloc(ptr, size ? size : 1);
+    fprintf(vt_out, "{\"e\":\"Free\",\"id\":%d}\n", id); if (id > 0) g_ptr[id - 1] = NULL;
+    if (g_nptr >= MAXBLK) { fprintf(stderr, "too many blocks\n"); exit(2); }
+    g_ptr[g_nptr++] = p;
+    fprintf(vt_out, "{\"e\":\"Alloc\",\"kind\":\"realloc\",\"id\":%d,\"ok\":1,\"sz\":%zu}\n", g_nptr, size);
+    return p;
+}
 void verif_free(void *ptr) {
     if (!g_logging) { free(ptr); return; }
     if (!ptr) { fputs("{\"e\":\"Free\",\"id\":0}\n", vt_out); return; }
@@ -127,6 +140,9 @@ static void build_scenarios(int quick) {
     /* compactCells: 0..3 rounds, pentagon and hexagon roots, error exits */
     for (int up = 0; up <= (quick ? 2 : 3); up++) for (int v = 0; v < 72; v += (quick ? 5 : 1)) { int res = 3 + (v % 9); if (res - up < 0) continue; add("compactCells", 1, res, up, v); }
     add("compactCells", 1, 0, 0, 2);
+    /* large inputs (more than 512 / 4096 cells): 4 and 5 levels of a hexagon and of a pentagon, complete and with a leaf missing */
+    for (int v = 0; v < 4; v++) { add("compactCells", 1, 6 + v, 4, v % 2 ? 1 : 2); add("compactCells", 1, 6 + v, 4, v % 2 ? 49 : 50); }
+    if (!quick) for (int v = 0; v < 2; v++) add("compactCells", 1, 9 + v, 5, v % 2 ? 1 : 2);
     /* gridDisk: near pentagon (fallback allocates), far (none), invalid origins (error path after fallback) */
     for (int k = 0; k <= (quick ? 2 : 4); k++) for (int c = 0; c < 12; c += (quick ? 3 : 1)) { add("gridDisk", 2, 2 + (c % 9), k, c); add("gridDisk", 2, 3 + c % 5, k, 100 + c); }
     for (int c = 200; c <= (quick ? 204 : 230); c++) add("gridDisk", 2, 4 + c % 6, 1 + c % 3, c);
